@@ -21,6 +21,12 @@ class _Renamer(ast.NodeTransformer):
             n.id = self.m[n.id]
         return n
 
+    def visit_FunctionDef(self, n):
+        if n.name in self.m:
+            n.name = self.m[n.name]
+        self.generic_visit(n)
+        return n
+
 
 def _locals_of(fn) -> list:
     def params_of(f):
@@ -33,11 +39,12 @@ def _locals_of(fn) -> list:
         return out
     keep = params_of(fn)
     declared = set()
+    nested_names = set()
     for n in ast.walk(fn):
         if isinstance(n, (ast.FunctionDef, ast.AsyncFunctionDef, ast.Lambda)) and n is not fn:
             keep |= params_of(n)
             if not isinstance(n, ast.Lambda):
-                keep.add(n.name)
+                nested_names.add(n.name)
         if isinstance(n, (ast.Import, ast.ImportFrom)):
             keep |= {(a.asname or a.name).split(".")[0] for a in n.names}
         if isinstance(n, (ast.Global, ast.Nonlocal)):
@@ -45,7 +52,7 @@ def _locals_of(fn) -> list:
         if isinstance(n, ast.ClassDef):
             keep.add(n.name)
     stored = {n.id for n in ast.walk(fn) if isinstance(n, ast.Name) and isinstance(n.ctx, ast.Store)}
-    return sorted(stored - keep - declared)
+    return sorted((stored | nested_names) - keep - declared)
 
 
 def alpha_overlay(root: str) -> tuple:
@@ -72,6 +79,36 @@ def alpha_overlay(root: str) -> tuple:
                 if names:
                     n_f += 1
                     n_l += len(names)
-                    _Renamer({x: f"{x}_r" for x in names}).visit(f)
+                    r_ = _Renamer({x: f"{x}_r" for x in names})
+                    for st_ in f.body:
+                        r_.visit(st_)
             overlay[rel] = ast.unparse(tree) + "\n"
     return overlay, n_f, n_l
+
+
+class _KwReverse(ast.NodeTransformer):
+    """Reverse the order of the keyword arguments of calls whose keyword values
+    cannot have side effects (names, attributes, constants): same call."""
+    n = 0
+
+    def visit_Call(self, node):
+        self.generic_visit(node)
+        if len(node.keywords) > 1 and all(k.arg is not None and isinstance(k.value, (ast.Name, ast.Attribute, ast.Constant)) for k in node.keywords):
+            node.keywords = list(reversed(node.keywords))
+            _KwReverse.n += 1
+        return node
+
+
+def kwreverse_overlay(root: str) -> tuple:
+    overlay = {}
+    _KwReverse.n = 0
+    src_root = os.path.join(root, "src", "aspire")
+    for dirpath, _dirs, files in os.walk(src_root):
+        for fn in sorted(files):
+            if fn.endswith(".py"):
+                path = os.path.join(dirpath, fn)
+                with open(path, encoding="utf-8") as fh:
+                    tree = ast.parse(fh.read())
+                _KwReverse().visit(tree)
+                overlay[os.path.relpath(path, root)] = ast.unparse(tree) + "\n"
+    return overlay, _KwReverse.n
